@@ -20,16 +20,31 @@ the position in list order, later wins) judges the outcome:
 (a) all strings over {a, b, space, U+3042, U+0301, newline, tab} up to a length bound,
 (b) 8 carrier strings x ordered span lists (levels L0..L4, see _levels).
 
-Measured: quick = 2 048 799 wraps, 798 distinct outcome signatures, ~410 CPU-seconds
-(~30 s wall on 16 idle cores; 300 s were measured while the machine ran at load
-average ~90). thorough = ~40 M wraps planned, ~8 300 CPU-seconds (~9 min on 16 idle
-cores) extrapolated from 5.4 k wraps per CPU-second measured on part (a); shards of
-(a) and (b) are interleaved so a run cut by the wall cap covers both parts evenly.
+History dimension ("the result of a wrap does not depend on what was wrapped before"):
+every shard runs in a newly forked worker (FRESH_WORKERS) and the wraps of one input are
+executed as an ordered sequence in that process (run_group). Order A per width =
+[fold wraps] [other (overflow, no_wrap) modes] [fold again]; order B = [other modes]
+[fold wraps] [first other mode again]; part (a) and levels L0/L1 run in both orders in
+separate processes. Every wrap is judged by the oracle wherever it stands, and a repeated
+wrap must give the identical result. A failure after a history is filed as history/<key>
+with the history that led to it (replay re-executes the history); finish() re-runs the single
+wrap in a brand-new interpreter and files it as plain <key> when it fails there as well.
+
+Measured: quick = 3 013 971 wraps (2 606 913 of them judged after a history), 1296 distinct
+outcome signatures, ~560 CPU-seconds (~40 s wall on 16 idle cores; measured while the
+machine ran at load average 30-90). thorough = ~55 M wraps planned, ~11 000 CPU-seconds
+(~12 min on 16 idle cores) extrapolated from 5.4 k (a) / 3.8 k (b) wraps per CPU-second;
+shards of (a) and (b) are interleaved so a run cut by the wall cap covers both parts evenly.
 """
 import io
 import itertools
+import json
+import os
+import subprocess
+import sys
 import traceback
 
+from .. import ROOT
 from ..par import Result, deadline_passed
 from ..width import cw
 from ..refstyle import RefStyle
@@ -426,20 +441,104 @@ def execute(case):
         return None, exc
 
 
-def check_case(case, res):
+def _flat(common, cfg):
+    W, j, ov, nw, tab = cfg
+    return dict(common, W=W, justify=j, overflow=ov, no_wrap=nw, tab=tab)
+
+
+def _mode(cfg):
+    return cfg[2] + ("+no_wrap" if cfg[3] and cfg[2] != "ignore" else "")
+
+
+def _observe(common, cfg):
+    case = _flat(common, cfg)
     out, exc = execute(case)
+    return case, out, exc, (("exc", type(exc).__name__) if exc is not None else out)
+
+
+def _violate_after(res, key, common, hist, detail):
+    """files a failure seen after a history; the JSON of a long history is only built when it can
+    become the kept (smallest) case of its key"""
+    old = res.violations.get(key)
+    if old is not None and old[0] <= 28 * len(hist):
+        res.vcount[key] = res.vcount.get(key, 0) + 1
+        return
+    res.violate(key, dict(common, hist=[list(h) for h in hist]),
+                "after %d earlier wraps of the same input in this process: %s" % (len(hist) - 1, detail))
+
+
+def run_group(common, blocks, res):
+    """Executes the wraps of ONE input (string, base, spans) in the given order inside this process.
+    blocks: list of lists of cfg = (W, justify, overflow, no_wrap, tab). The first block is wrapped
+    before anything else of this input was wrapped ("first"); everything later runs after a history.
+    Every wrap is judged by the oracle; a cfg that occurs again must give the identical result.
+    A failure after a history is filed under history/<key> together with the history that led to it
+    (finish() re-runs the single case in a fresh process and drops the prefix if it fails there too)."""
+    hist = []
+    first = {}
+    part, level = common["part"], common.get("level", 0)
+    for bi, cfgs in enumerate(blocks):
+        fresh = bi == 0
+        for cfg in cfgs:
+            case, out, exc, obs = _observe(common, cfg)
+            res.evaluations += 1
+            hist.append(cfg)
+            seen_before = cfg in first
+            pos = "first" if fresh else ("repeat" if seen_before else "later")
+            if exc is not None:
+                errs = [(_crash_key(exc), "%s: %s" % (type(exc).__name__, exc))]
+                res.sig(("crash", type(exc).__name__, pos), nontrivial=False)
+            else:
+                errs, info = judge(case, out)
+                nl = info["nlines"] if info["nlines"] < 3 else 3
+                res.sig((part, level, pos, cfg[2], cfg[3], cfg[1],
+                         nl, info["split"], info["cropped"], info["conflict"], info["crossing"]),
+                        nontrivial=bool(nl > 1 or info["cropped"] or info["conflict"]))
+            for key, detail in errs:
+                if fresh:
+                    res.violate(key, case, detail)
+                else:
+                    _violate_after(res, "history/" + key, common, hist, detail)
+            if not seen_before:
+                first[cfg] = obs
+            elif first[cfg] != obs:
+                _violate_after(res, "history/result-changed/" + _mode(cfg), common, hist,
+                               "the same wrap gave %s the first time and now %s" % (_show(first[cfg]), _show(obs)))
+            if not fresh:
+                res.count("wraps_judged_after_a_history")
+
+
+def _show(obs):
+    if isinstance(obs, tuple):
+        return repr(obs)
+    return repr(["".join(c for c, _ in line) for line in obs])
+
+
+def check_case(case, res):
+    """one flat case, nothing before it (replay of a non-history finding)"""
+    common = {k: v for k, v in case.items() if k not in ("W", "justify", "overflow", "no_wrap", "tab")}
+    run_group(common, [[(case["W"], case["justify"], case["overflow"], case["no_wrap"], case.get("tab", 8))]], res)
+
+
+def check_history(case, res):
+    """replay of a history finding: the recorded wraps are executed in order, the last one is judged"""
+    common = {k: v for k, v in case.items() if k != "hist"}
+    hist = [tuple(h) for h in case["hist"]]
+    first = {}
+    for cfg in hist[:-1]:
+        _, _, _, obs = _observe(common, cfg)
+        first.setdefault(cfg, obs)
+    cfg = hist[-1]
+    flat, out, exc, obs = _observe(common, cfg)
     res.evaluations += 1
     if exc is not None:
-        res.violate(_crash_key(exc), case, "%s: %s" % (type(exc).__name__, exc))
-        res.sig(("crash", type(exc).__name__), nontrivial=False)
-        return
-    errs, info = judge(case, out)
-    for key, detail in errs:
-        res.violate(key, case, detail)
-    nl = info["nlines"] if info["nlines"] < 3 else 3
-    sig = (case["part"], case.get("level", 0), case["overflow"], case["no_wrap"], case["justify"],
-           nl, info["split"], info["cropped"], info["conflict"], info["crossing"])
-    res.sig(sig, nontrivial=bool(nl > 1 or info["cropped"] or info["conflict"]))
+        res.violate("history/" + _crash_key(exc), case, "%s: %s" % (type(exc).__name__, exc))
+    else:
+        for key, detail in judge(flat, out)[0]:
+            res.violate("history/" + key, case, detail)
+    if cfg in first and first[cfg] != obs:
+        res.violate("history/result-changed/" + _mode(cfg), case,
+                    "first %s, now %s" % (_show(first[cfg]), _show(obs)))
 
 
 # ------------------------------------------------------------------ (a) characters
@@ -453,36 +552,47 @@ def _strings(maxlen):
             yield "".join(tup)
 
 
-def _a_core_configs(tier, s):
-    """fold with wrapping: every clause applies."""
+def _a_blocks(tier, s, order):
+    """Blocks of wraps for string s, width by width.
+    order A: [fold, every justify and tab size] [other modes] [fold again]
+    order B: [other modes] [fold] [first other mode again]
+    so fold is judged before and after the other modes ran, and a non-fold mode before and after fold."""
     L = len(s)
     tabs = (4, 8) if "\t" in s else (8,)
+    tab1 = tabs[0]
     if tier == "quick":
         widths, justs = (2, 3, 4, 5, 9), JUSTIFY
+        all_modes = L <= 4 and (2, 3, 5) or ()
+        justs_b = JUSTIFY if L <= 4 else ("default", "full")
     elif L <= 6:
         widths, justs = range(2, 13), JUSTIFY
+        all_modes = L <= 5 and (2, 3, 4, 5, 9) or ()
+        justs_b = JUSTIFY if L <= 5 else ("default", "full")
     else:
         widths, justs = (2, 3, 4, 5), ("default", "full")
+        all_modes = ()
+        justs_b = ("default",)
+    blocks = []
     for W in widths:
-        for j in justs:
-            for tab in tabs:
-                yield W, j, "fold", False, tab
-
-
-def _a_other_configs(tier, s):
-    """the six other (overflow, no_wrap) modes: only fit (fold+no_wrap) and no-crash apply."""
-    L = len(s)
-    if L > (4 if tier == "quick" else 5):
-        return
-    tab = 4 if "\t" in s else 8
-    for W in ((2, 3, 5) if tier == "quick" else (2, 3, 4, 5, 9)):
-        for j in JUSTIFY:
-            for ov, nw in MODES[1:]:
-                yield W, j, ov, nw, tab
+        if order == "A":
+            blocks.append([(W, j, "fold", False, tab) for j in justs for tab in tabs])
+            if W in all_modes:
+                blocks.append([(W, j, ov, nw, tab1) for j in JUSTIFY for ov, nw in MODES[1:]])
+            else:
+                blocks.append([(W, "default", "ellipsis", False, tab1)])
+            blocks.append([(W, "default", "fold", False, tab1)])
+        else:
+            if W in all_modes:
+                other = [(W, "default", ov, nw, tab1) for ov, nw in MODES[1:]]
+            else:
+                other = [(W, "default", "ellipsis", False, tab1), (W, "default", "crop", False, tab1)]
+            blocks.append(other)
+            blocks.append([(W, j, "fold", False, tab1) for j in justs_b])
+            blocks.append(other[:1])
+    return blocks
 
 
 def _part_a(sh, tier, res):
-    gen = _a_core_configs if sh["part"] == "a" else _a_other_configs
     for idx, s in enumerate(_strings(_maxlen(tier))):
         if idx % sh["n"] != sh["i"]:
             continue
@@ -490,13 +600,11 @@ def _part_a(sh, tier, res):
             res.capped = True
             res.count("a_strings_not_reached", 1)
             break
-        if sh["part"] == "a":
-            res.count("a_strings")
-        for W, j, ov, nw, tab in gen(tier, s):
-            case = {"part": "a", "s": s, "W": W, "justify": j, "overflow": ov, "no_wrap": nw, "tab": tab}
-            check_case(case, res)
-            if idx % 4001 == 0 and W == 3 and j == "full":
-                res.sample(case, limit=2)
+        res.count("a_strings_order_" + sh["order"])
+        run_group({"part": "a", "s": s}, _a_blocks(tier, s, sh["order"]), res)
+        if idx % 4001 == 0:
+            res.sample({"part": "a", "order": sh["order"], "s": s,
+                        "wraps": [list(c) for blk in _a_blocks(tier, s, sh["order"])[:3] for c in blk][:8]}, limit=2)
 
 
 # ------------------------------------------------------------------ (b) styles
@@ -531,7 +639,8 @@ _L3_THOROUGH = [(W, j, ov, False) for W in (2, 3, 4, 7)
 
 
 def _levels(tier):
-    """-> list of (level name, carrier indices, generator of (base, spans) given carrier length, configs)."""
+    """-> list of (level name, carrier indices, generator of (base, spans) given carrier length, configs).
+    _ORDERS says which levels are also run in order B (other modes before fold)."""
     def l0(n):
         yield False, ()
         yield True, ()
@@ -609,10 +718,29 @@ def _level(tier, name):
     raise KeyError(name)
 
 
+_ORDERS = {"L0": ("A", "B"), "L1": ("A", "B")}        # every other level: order A only
+
+
+def _b_blocks(cfgs, tabs, order):
+    """Per width: order A = [fold wraps] [other modes] [first fold wrap again];
+    order B = [other modes] [fold wraps] [first other mode again]."""
+    blocks = []
+    for W in sorted(set(c[0] for c in cfgs)):
+        mine = [(W, j, ov, nw, tab) for w, j, ov, nw in cfgs if w == W for tab in tabs]
+        fold = [c for c in mine if c[2] == "fold" and not c[3]]
+        other = [c for c in mine if not (c[2] == "fold" and not c[3])]
+        if order == "A":
+            blocks += [fold, other] + ([fold[:1]] if other else [])
+        else:
+            blocks += [other, fold, other[:1]]
+    return [blk for blk in blocks if blk]
+
+
 def _part_b(sh, tier, res):
     name, _, gen, cfgs = _level(tier, sh["level"])
     s = CARRIERS[sh["carrier"]]
     tabs = (4, 8) if "\t" in s and name in ("L0", "L1") else (4,)
+    blocks = _b_blocks(cfgs, tabs, sh.get("order", "A"))
     for idx, (base, spans) in enumerate(gen(len(s))):
         if idx % sh["n"] != sh["i"]:
             continue
@@ -621,30 +749,28 @@ def _part_b(sh, tier, res):
             res.count("b_span_lists_not_reached", 1)
             break
         sp = [list(x) for x in spans]
-        res.count("b_span_lists")
+        res.count("b_span_lists_order_" + sh.get("order", "A"))
         res.counters["max_spans"] = max(res.counters.get("max_spans", 0), len(sp))
-        for W, j, ov, nw in cfgs:
-            for tab in tabs:
-                case = {"part": "b", "level": name, "styled": True, "s": s, "base": base, "spans": sp,
-                        "W": W, "justify": j, "overflow": ov, "no_wrap": nw, "tab": tab}
-                check_case(case, res)
+        run_group({"part": "b", "level": name, "styled": True, "s": s, "base": base, "spans": sp}, blocks, res)
         if idx % 5003 == 17:
-            res.sample({"part": "b", "level": name, "s": s, "base": base, "spans": sp}, limit=2)
+            res.sample({"part": "b", "level": name, "order": sh.get("order", "A"), "s": s, "base": base, "spans": sp}, limit=2)
 
 
 # ------------------------------------------------------------------ protocol
 def plan(tier, seed):
     na = 32 if tier == "quick" else 192
-    a = [{"part": "a", "i": i, "n": na} for i in range(na)]
-    no = 16 if tier == "quick" else 32
-    a += [{"part": "a-other", "i": i, "n": no} for i in range(no)]
+    a = []
+    for i in range(na):
+        a.append({"part": "a", "order": "A", "i": i, "n": na})
+        a.append({"part": "a", "order": "B", "i": i, "n": na})
     b = []
     for name, carriers, gen, cfgs in _levels(tier):
-        for ci in carriers:
-            n = len(CARRIERS[ci])
-            est = _count(name, tier, n) * len(cfgs)
-            k = max(1, min(64, est // 25000))
-            b += [{"part": "b", "level": name, "carrier": ci, "i": i, "n": k} for i in range(k)]
+        for order in _ORDERS.get(name, ("A",)):
+            for ci in carriers:
+                n = len(CARRIERS[ci])
+                est = _count(name, tier, n) * len(cfgs)
+                k = max(1, min(64, est // 25000))
+                b += [{"part": "b", "level": name, "order": order, "carrier": ci, "i": i, "n": k} for i in range(k)]
     # interleave the two parts so that a run cut short by the wall cap has covered both evenly
     shards = []
     ia = ib = 0
@@ -691,7 +817,7 @@ def _count(name, tier, n):
 def run_shard(sh, tier, seed):
     res = Result()
     _selfcheck()
-    if sh["part"] in ("a", "a-other"):
+    if sh["part"] == "a":
         _part_a(sh, tier, res)
     else:
         _part_b(sh, tier, res)
@@ -702,10 +828,12 @@ def describe(tier, seed, res):
     lv = "; ".join("%s on %d carriers x %d configurations" % (name, len(c), len(cfg))
                    for name, c, gen, cfg in _levels(tier))
     if tier == "quick":
-        a_rule = ("all %d strings over {a, b, space, U+3042, U+0301, newline, tab} of length <=5 x widths {2,3,4,5,9} "
-                  "x 5 justify modes x tab size {4,8} (8 only when there is no tab) with overflow=fold; the six other "
-                  "(overflow, no_wrap) modes on the strings of length <=4 x widths {2,3,5} x 5 justify modes"
-                  % sum(7 ** i for i in range(6)))
+        a_rule = ("all %d strings over {a, b, space, U+3042, U+0301, newline, tab} of length <=5 x widths {2,3,4,5,9}, each "
+                  "string in two wrap orders in separate fresh processes. Order A per width: fold x 5 justify x tab size {4,8} "
+                  "(8 only when there is no tab), then the six other (overflow, no_wrap) modes x 5 justify (length <=4, widths "
+                  "{2,3,5}; otherwise ellipsis once), then fold again. Order B per width: the six other modes (length <=4, widths "
+                  "{2,3,5}; otherwise ellipsis and crop), then fold x 5 justify (length 5: default, full), then the first other "
+                  "mode again" % sum(7 ** i for i in range(6)))
         b_rule = ("L0 no span, L1 one span (every 0<=start<=end<=len plus spans overhanging one end by one position) x 2 styles "
                   "x base style on/off, both x widths {2,3,4,7} x 5 justify x 7 (overflow,no_wrap) modes; L2 every ordered pair "
                   "of in-range spans x style patterns AA/AB/BA x widths {2,3,4,7} x justify {default,center,full} x overflow "
@@ -713,9 +841,11 @@ def describe(tier, seed, res):
                   "justify {default,full}, fold; L3 every ordered triple of non-empty in-range spans x 5 style patterns "
                   "(assignments up to renaming) on the 6 carriers of <=5 characters x widths {2,3,4} x justify {default,full}, fold")
     else:
-        a_rule = ("all %d strings of length <=7: length <=6 x widths 2..12 x 5 justify x tab {4,8}; length 7 x widths {2,3,4,5} x "
-                  "justify {default,full}; overflow=fold; the six other (overflow, no_wrap) modes on the strings of "
-                  "length <=5 x widths {2,3,4,5,9} x 5 justify" % sum(7 ** i for i in range(8)))
+        a_rule = ("all %d strings of length <=7, each in wrap orders A and B (see quick) in separate fresh processes: "
+                  "length <=6 x widths 2..12 x 5 justify x tab {4,8}; length 7 x widths {2,3,4,5} x justify {default,full}; "
+                  "the six other (overflow, no_wrap) modes x 5 justify on length <=5 x widths {2,3,4,5,9}, otherwise "
+                  "ellipsis (A) / ellipsis and crop (B); order B folds with 5 justify (length <=5), default+full (6), default (7)"
+                  % sum(7 ** i for i in range(8)))
         b_rule = ("L0, L1 as in quick; L2 every ordered pair of spans (in-range or overhanging) x 4 style assignments x base on/off "
                   "x widths {2,3,4,7} x 5 justify x overflow {fold,ellipsis,crop}; L3 every ordered triple of in-range spans "
                   "(empty ones included) x 5 style patterns on all 8 carriers x widths {2,3,4,7} x {default/fold, full/fold, "
@@ -723,10 +853,15 @@ def describe(tier, seed, res):
                   "carriers x widths {2,3,4} x justify {default,full}, fold")
     return {
         "rule": "(a) characters: " + a_rule + ". (b) styles on 8 carriers with pairwise distinct non-whitespace characters "
-                "(%s): %s [%s]. Every case is executed once through Text.wrap and read back through line.render. "
+                "(%s): %s [%s]. Per span list and width the wraps run in order A (fold wraps, other modes, first fold wrap "
+                "again); L0 and L1 additionally in order B (other modes, fold wraps, first other mode again) in separate fresh "
+                "processes. Every wrap goes through Text.wrap and is read back through line.render; a wrap that is not in the "
+                "first block of its input is judged 'after a history' (finding keys history/...), a repeated wrap must equal "
+                "its first result. "
                 "A case is non-trivial when it produced more than one line, cropped characters, or an output character "
                 "is covered by two spans of different style; distinct = distinct outcome signatures (level, mode, justify, "
-                "line-count class, word split, cropped, style conflict, span crossing a line break)."
+                "position first/later/repeat in the history, line-count class, word split, cropped, style conflict, span crossing "
+                "a line break)."
                 % (", ".join(repr(c) for c in CARRIERS), b_rule, lv),
         "assumptions": [
             "whitespace = space, tab, newline; U+0301 counts as a non-whitespace character",
@@ -740,20 +875,73 @@ def describe(tier, seed, res):
             "(Text.render itself raises on them, with or without wrapping) and are not enumerated",
             "line fit is required for overflow=fold only (with and without no_wrap), as the statement says",
             "indentation of a word = leading whitespace of its source line with tabs expanded to the next multiple of tab_size",
+            "history: a worker process is forked per shard before anything was wrapped in it; 'before' means the first block "
+            "of wraps of an input in that process (earlier inputs of the same shard were wrapped before it: for (a) each "
+            "input's first wrap is a fold wrap in order A and a non-fold wrap in order B, for (b) the carrier text is the "
+            "same for every span list of a shard)",
+            "a history/<key> finding was confirmed by re-running its single last wrap alone in a new interpreter, where it passes",
         ],
-        "coverage": {},
+        "coverage": {"wraps_judged_after_a_history": res.counters.get("wraps_judged_after_a_history", 0)},
     }
 
 
 def replay(case):
     _selfcheck()
     res = Result()
-    check_case(case, res)
+    if "hist" in case:
+        check_history(case, res)
+    else:
+        check_case(case, res)
     return [(k, v[2]) for k, v in sorted(res.violations.items())]
 
 
-TECHNIQUE = ("bounded-exhaustive enumeration of strings x ordered span lists x wrap configurations on the real Text.wrap, "
-             "judged by an independent per-character reference model (char, RefStyle)")
+def _fresh_replay(flat):
+    """Judges one flat case in a brand-new interpreter -> list of finding keys, or None if that failed."""
+    code = ("import sys, json\nfrom vf import use_repo\nuse_repo()\nfrom vf.checks import c02\n"
+            "print(json.dumps(c02.replay(json.loads(sys.argv[1]))))")
+    try:
+        p = subprocess.run([sys.executable, "-c", code, json.dumps(flat)], cwd=ROOT,
+                           env=dict(os.environ, PYTHONHASHSEED="0"), capture_output=True, text=True, timeout=600)
+        if p.returncode != 0:
+            return None
+        return [k for k, _ in json.loads(p.stdout.strip().splitlines()[-1])]
+    except Exception:                                   # noqa: BLE001
+        return None
+
+
+def finish(tier, seed, res):
+    """A failure seen after a history is a history finding only if the same single wrap passes in a
+    fresh process. The kept (smallest) case of every history/<key> is re-run alone in a new
+    interpreter; if it fails there with <key> too, the finding is filed under <key>."""
+    for key in sorted(res.violations):
+        if not key.startswith("history/") or key.startswith("history/result-changed/"):
+            continue
+        raw = key[len("history/"):]
+        size, cj, detail = res.violations[key]
+        case = json.loads(cj)
+        flat = _flat({k: v for k, v in case.items() if k != "hist"}, tuple(case["hist"][-1]))
+        verdict = _fresh_replay(flat)
+        res.count("history_findings_rechecked_in_a_fresh_process")
+        if verdict is None:
+            res.violations[key] = (size, cj, detail + " [the fresh-process re-run could not be executed]")
+        elif raw in verdict:
+            n = res.vcount.pop(key)
+            del res.violations[key]
+            res.vcount[raw] = res.vcount.get(raw, 0) + n
+            fj = json.dumps(flat, sort_keys=True, ensure_ascii=True)
+            cand = (len(fj), fj, detail.split(": ", 1)[-1])
+            old = res.violations.get(raw)
+            if old is None or cand[:2] < old[:2]:
+                res.violations[raw] = cand
+        else:
+            res.violations[key] = (size, cj, detail + " [the same single wrap passes in a fresh process]")
+
+
+FRESH_WORKERS = True    # every shard runs in a newly forked worker that has wrapped nothing yet
+
+TECHNIQUE = ("bounded-exhaustive enumeration of strings x ordered span lists x wrap configurations x wrap orders (fold before / "
+             "after the other modes, in fresh processes) on the real Text.wrap, judged by an independent per-character "
+             "reference model (char, RefStyle)")
 LEVEL_TEXT = ("Every string over a 7-symbol alphabet up to the length bound and every ordered span list in scope is wrapped "
               "by the real code under every configuration in scope; conservation of non-whitespace characters, line fit, the "
               "word-break rule and the effective style of every identifiable output character are decided by a reference "
